@@ -64,6 +64,12 @@ def mutate(rng, lines, ids):
     for ln in lines:
         r = rng.random()
         b = ln.encode("latin-1")
+        mx = re.match(r"^(-1 [Xx] \S+ \S+) :", ln)
+        if mx and rng.random() < 0.3:
+            # a reply whose text is a bare or clipped verb, a word that begins like one, or nothing
+            out.append((mx.group(1) + rng.choice([" :", " :NO", " :OK", " :MORE", " :AGAIN", " :N", " :NOPE", " :NOTICE x", " :MOREOVER", " :AGAINST", " :OK ", " :NO ", " :MORE ", " :AGAIN ",
+                                                 "", " :A", " :MOR", " :AGAI", " :O"])).encode("latin-1"))
+            continue
         if r < 0.55:
             out.append(b)
             continue
@@ -217,6 +223,10 @@ def _stream_worker(a):
                         # a reply or unlinked notice without its text parameter, for a tag and service of the good stream
                         sv_, tg_ = rng.choice(live)
                         mixed.append(("-1 %s %s %s" % (rng.choice("Xx"), sv_, tg_)).encode())
+                    elif c < 0.16 and live:
+                        # a reply for a tag and service of the good stream whose text is neither a verdict nor a challenge
+                        sv_, tg_ = rng.choice(live)
+                        mixed.append(("-1 X %s %s :%s" % (sv_, tg_, rng.choice(["NO", "AGAIN", "MORE", "NOPE", "NOTICE hello", "OKAY x", "ok a", "no x", "O", "N", "MOREOVER y", "AGAINST z", ""]))).encode())
                     elif c < 0.2:
                         # one over-long junk line (unknown command word) whose body is made of fragments that would be valid lines
                         frag = rng.choice(["%d D " % rng.choice(ids), "%d T " % rng.choice(ids), "%d H " % rng.choice(ids), "-1 X login.svc %x_1 :NO x " % rng.choice(ids)])
